@@ -7,10 +7,10 @@
 From Coq Require Export List Bool Arith ZArith Lia.
 Export ListNotations.
 
-Definition aid := nat.                              (* array identity *)
+Notation aid := nat (only parsing).                 (* array identity *)
 Record slice := { s_arr : aid; s_off : nat; s_len : nat }.
 Definition heap := list (list Z).                   (* array i = nth i heap; its length is its capacity *)
-Definition var := nat.
+Notation var := nat (only parsing).
 Record state := { hp : heap; vars : list (option slice) }.   (* None = nil *)
 
 Definition arr (h : heap) (a : aid) : list Z := nth a h [].
